@@ -172,3 +172,13 @@ func callArg(call *ast.CallExpr, i int) ast.Expr {
 
 type funcT = types.Func
 type typesVar = types.Var
+
+func slicesDelete(l []string, x string) []string {
+	var out []string
+	for _, s := range l {
+		if s != x {
+			out = append(out, s)
+		}
+	}
+	return out
+}
